@@ -8,6 +8,7 @@ package main
 // call.  Helpers that write module state are not summarised (the facts could be stale).
 
 import (
+	"fmt"
 	"go/token"
 	"go/types"
 	"sort"
@@ -36,7 +37,16 @@ func returnFacts(p *Prog, fn *ssa.Function, mode string) []Fact {
 	if !isModuleFn(fn) || summaryDepth > 2 {
 		return nil
 	}
-	if eff := p.TransEffects(fn, nil, nil); len(eff.W) > 0 {
+	// (stores into an object the helper itself has just made are not writes of module state)
+	freshStore := func(in ssa.Instruction) bool {
+		st, ok := in.(*ssa.Store)
+		if !ok {
+			return false
+		}
+		al, ok := addrRoot(st.Addr).(*ssa.Alloc)
+		return ok && al.Heap && al.Parent() == fn
+	}
+	if eff := p.TransEffects(fn, freshStore, nil); len(eff.W) > 0 {
 		return nil
 	}
 	summaryDepth++
@@ -82,7 +92,7 @@ func returnFacts(p *Prog, fn *ssa.Function, mode string) []Fact {
 		case "nilerr":
 			ev := returnedValue(ret, len(ret.Results)-1)
 			if c, isC := ev.(*ssa.Const); isC && c.Value == nil {
-				scenarios = append(scenarios, g.FactsAtBlock(ret.Block()))
+				scenarios = append(scenarios, append(g.FactsAtBlock(ret.Block()), resultFieldFacts(g, ret)...))
 			} else if _, isC := ev.(*ssa.Const); !isC {
 				// an error value that is not syntactically nil or non-nil: could be nil with nothing learnt
 				if !definitelyNonNilError(ev) {
@@ -300,6 +310,69 @@ func definitelyNonNilError(v ssa.Value) bool {
 	return false
 }
 
+// resultFieldFacts: the helper returns an object it made itself (`p := new(T); p.f = x; return p, nil`):
+// for every integer field stored exactly once, on the way to this return, result.f == x, and every
+// fact about x at the return is one about result.f.  The result is named ‹$retK›.
+func resultFieldFacts(g *GuardCtx, ret *ssa.Return) []Fact {
+	var out []Fact
+	fn := ret.Parent()
+	base := g.FactsAtBlock(ret.Block())
+	for k := range ret.Results {
+		al, ok := returnedValue(ret, k).(*ssa.Alloc)
+		if !ok || !al.Heap || derefStruct(al.Type()) == nil {
+			continue
+		}
+		st := derefStruct(al.Type())
+		count := map[int]int{}
+		var stores []*ssa.Store
+		Instrs(fn, func(in ssa.Instruction) {
+			s, ok := in.(*ssa.Store)
+			if !ok {
+				return
+			}
+			if fa, ok := s.Addr.(*ssa.FieldAddr); ok && fa.X == ssa.Value(al) {
+				count[fa.Field]++
+				stores = append(stores, s)
+			}
+		})
+		// the object must not be handed to anything that could write it before the return
+		escapes := false
+		for _, ref := range *al.Referrers() {
+			switch x := ref.(type) {
+			case *ssa.FieldAddr, *ssa.Return:
+			default:
+				_ = x
+				escapes = true
+			}
+		}
+		if escapes {
+			continue
+		}
+		for _, s := range stores {
+			fa := s.Addr.(*ssa.FieldAddr)
+			if count[fa.Field] != 1 || !isIntLike(s.Val.Type()) || !InstrDominates(s, ret) {
+				continue
+			}
+			rsym := polySym(fmt.Sprintf("‹$ret%d›.%s", k, st.Field(fa.Field).Name()))
+			val := g.PC.Of(s.Val)
+			out = append(out, Fact{D: rsym.Sub(val), Eq: true, Why: "stored by the helper"})
+			// restate the facts about the stored value as facts about the field
+			if syms := val.Symbols(); len(syms) == 1 && len(val) == 1 {
+				if coef, rest, okl := val.SplitLinear(syms[0]); okl && len(rest) == 0 && coef.Equal(polyConst(1)) {
+					for _, f := range base {
+						c2, r2, ok2 := f.D.SplitLinear(syms[0])
+						if !ok2 || len(c2) == 0 {
+							continue
+						}
+						out = append(out, Fact{D: c2.Mul(rsym).Add(r2), Eq: f.Eq, NE: f.NE, Why: f.Why})
+					}
+				}
+			}
+		}
+	}
+	return out
+}
+
 // factsFromCall: the facts the caller (g) learns when `call` returned as mode says.
 func (g *GuardCtx) factsFromCall(call *ssa.Call, mode string, why string) []Fact {
 	callee := call.Call.StaticCallee()
@@ -318,6 +391,31 @@ func (g *GuardCtx) factsFromCall(call *ssa.Call, mode string, why string) []Fact
 					if "‹"+prm.Name()+"›" == tok {
 						idx = i
 					}
+				}
+				if strings.HasPrefix(tok, "‹$ret") {
+					// the object the helper returned, under the caller's name for it
+					var k int
+					fmt.Sscanf(tok, "‹$ret%d›", &k)
+					var rv ssa.Value
+					if tup, isT := call.Type().(*types.Tuple); isT && tup.Len() > 1 {
+						for _, ref := range *call.Referrers() {
+							if e, isE := ref.(*ssa.Extract); isE && e.Index == k {
+								rv = e
+							}
+						}
+					} else if k == 0 {
+						rv = call
+					}
+					if rv == nil {
+						ok = false
+						continue
+					}
+					if pth, okP := g.PC.accessPath(rv); okP {
+						tokens[tok] = pth
+					} else {
+						ok = false
+					}
+					continue
 				}
 				if idx < 0 {
 					ok = false
